@@ -149,6 +149,13 @@ CLAIMED = {
         "note": "bitcode's codec is trusted; printer/parser agreement on the re-parsed R1C1 text is C09's subject. " + TRUST,
         "technique": "impl/ADT closure query + CFG dominance (must-pass-through) + provenance of encode/decode operands",
     },
+    "C33": {
+        "level": "Static decision that metadata is handled wherever cells are: displacement call-set agreement (TRIPLE), capture of "
+                 "every link-changing Model call made by a UserModel operation (LINK-DIFF, by effect summaries + dominance), and the "
+                 "three cut-update helpers with their diffs (TRIPLE-cut).",
+        "note": "Agreement of the three displacement maps on edge positions is arithmetic and not decided. " + TRUST,
+        "technique": "effect summaries + CFG dominance + call-set agreement",
+    },
     "C34": {
         "level": "Exhaustive finite-domain path interpretation of next_state (4 inputs): bijection with a single 4-cycle; "
                  "provenance of every append to cycle_endpoint's result ('$', upper-cased column slice, row slice).",
